@@ -94,7 +94,7 @@ def run(chk):
     phases = {"prove": round(time.time() - chk.t0, 1)}
 
     # ------------------------------------------------------------------ (A) permit accounting, model vs implementation
-    nA = 1000 if quick else 8000
+    nA = 1000 if quick else 4000
     cases = []
     while len(cases) < nA:
         c = c16.gen_case(rng, 4 if quick else 8)
@@ -127,7 +127,7 @@ def run(chk):
 
     phases["A"] = round(time.time() - chk.t0, 1)
     # ------------------------------------------------------------------ (B) adversarial programs under a watchdog
-    progs = adversarial(rng, 400 if quick else 3000)
+    progs = adversarial(rng, 400 if quick else 1500)
     srcs = [f"let a = {e};" for e in progs]
     resps = run_timed(srcs, LIMITS)
     worst = (0, "")
